@@ -603,6 +603,10 @@ func init() {
 			}
 			var cas c19Case
 			json.Unmarshal(raw, &cas)
+			if strings.HasPrefix(cas.Scenario.Name, "full-file-system/") {
+				c19FullFS(c) // (the whole small grid: 60 cases)
+				return
+			}
 			c19Scenario1(c, cas.Scenario, cas.Kill)
 		},
 		Budget:      func(string) time.Duration { return 20 * time.Minute },
